@@ -136,3 +136,99 @@ Proof. exact decode_file_total_coherent. Qed.
 Theorem C13_bin_decode_total_bundled : forall p b,
   decode_file Database.database p b <> Panic /\ decode_file Database.database p b <> OutOfFuel.
 Proof. exact decode_file_total_bundled. Qed.
+
+(* ==== truncation of the binary format is always detected (Proofs/BinFraming.v): every strict prefix of a well-framed file
+   (valid header, chunk names of length 4 other than END, payloads below 2^32, END stored uncompressed and last) is rejected,
+   for every database, allocation limit and inflate oracle; lifted to every file the serializer model writes.  The two
+   hypotheses are needed: witnesses early_end_prefix_accepted and compressed_end_prefix_accepted. *)
+From RbxVerif Require Import BinFraming.
+Local Open Scope N_scope.
+
+Theorem C13_bin_truncation_not_ok :
+  forall (d : db) (p : dec_params) (cmp : compression) (nt ni : N) (cs : list (bytes * bytes)),
+       nt < 2 ^ 32 ->
+       ni < 2 ^ 32 ->
+       Forall (chunk_ok cmp) cs ->
+       Forall (fun c : bytes * bytes => fst c <> CH_END) cs ->
+       let f := file_header nt ni ++ flat_map (frame_chunk cmp) cs ++ END_CHUNK in
+       forall k : nat,
+       (k < Datatypes.length f)%nat -> forall dom : cdom, decode_file d p (firstn k f) <> Ok dom.
+Proof. exact truncation_not_ok. Qed.
+
+Theorem C13_bin_truncation_rejected :
+  forall (d : db) (p : dec_params) (cmp : compression) (nt ni : N) (cs : list (bytes * bytes)),
+       db_total d ->
+       nt < 2 ^ 32 ->
+       ni < 2 ^ 32 ->
+       Forall (chunk_ok cmp) cs ->
+       Forall (fun c : bytes * bytes => fst c <> CH_END) cs ->
+       let f := file_header nt ni ++ flat_map (frame_chunk cmp) cs ++ END_CHUNK in
+       forall k : nat, (k < Datatypes.length f)%nat -> exists e : N, decode_file d p (firstn k f) = Err e.
+Proof. exact truncation_rejected. Qed.
+
+Theorem C13_bin_encode_file_truncation_not_ok :
+  forall (d : db) (ep : enc_params) (p : dec_params) (dom : cdom) (roots : list N) (f : bytes),
+       encode_file d ep None dom roots = Ok f ->
+       N.of_nat (Datatypes.length f) < 2 ^ 32 ->
+       forall k : nat, (k < Datatypes.length f)%nat -> forall r : cdom, decode_file d p (firstn k f) <> Ok r.
+Proof. exact encode_file_truncation_not_ok. Qed.
+
+Theorem C13_bin_encode_file_truncation_rejected :
+  forall (d : db) (ep : enc_params) (p : dec_params) (dom : cdom) (roots : list N) (f : bytes),
+       db_total d ->
+       encode_file d ep None dom roots = Ok f ->
+       N.of_nat (Datatypes.length f) < 2 ^ 32 ->
+       forall k : nat, (k < Datatypes.length f)%nat -> exists e : N, decode_file d p (firstn k f) = Err e.
+Proof. exact encode_file_truncation_rejected. Qed.
+
+Theorem C13_bin_encode_file_truncation_rejected_compressed :
+  forall (d : db) (ep : enc_params) (c : bytes -> bytes) (p : dec_params) (dom : cdom) 
+         (roots : list N) (f : bytes),
+       db_total d ->
+       encode_file d ep (Some c) dom roots = Ok f ->
+       (forall e : encoded,
+        encode_chunks d ep dom roots = Ok e ->
+        Forall
+          (fun ch : bytes * list N =>
+           N.of_nat (Datatypes.length (snd ch)) < 2 ^ 32 /\
+           N.of_nat (Datatypes.length (c (snd ch))) < 2 ^ 32 /\ c (snd ch) <> []) 
+          (en_chunks e)) ->
+       forall k : nat, (k < Datatypes.length f)%nat -> exists e : N, decode_file d p (firstn k f) = Err e.
+Proof. exact encode_file_truncation_rejected_compressed. Qed.
+
+Theorem C13_bin_trailing_bytes_ignored :
+  forall (d : db) (p : dec_params) (cmp : compression) (nt ni : N) (cs : list (bytes * bytes))
+         (extra : list N),
+       dp_lim p = None ->
+       nt < 2 ^ 32 ->
+       ni < 2 ^ 32 ->
+       Forall (chunk_rt p cmp) cs ->
+       decode_file d p (file_header nt ni ++ flat_map (frame_chunk cmp) cs ++ END_CHUNK ++ extra) =
+       decode_file d p (file_header nt ni ++ flat_map (frame_chunk cmp) cs ++ END_CHUNK).
+Proof. exact trailing_bytes_ignored. Qed.
+
+Theorem C13_bin_short_compressed_chunk_accepted :
+  exists name data : bytes,
+         decode_chunk dp_liar (firstn 30 (skipn 32 sample_file_c)) = Ok (name, data, []).
+Proof. exact short_compressed_chunk_accepted. Qed.
+
+Theorem C13_bin_short_compressed_file_rejected :
+  decode_file db0 dp_liar (firstn 62 sample_file_c) = Err E_EOF.
+Proof. exact short_compressed_file_rejected. Qed.
+
+Theorem C13_bin_early_end_prefix_accepted :
+  (48 < Datatypes.length early_end_file)%nat /\
+       decode_file db0 (dp0 None) (firstn 48 early_end_file) = Ok [].
+Proof. exact early_end_prefix_accepted. Qed.
+
+Theorem C13_bin_compressed_end_prefix_accepted :
+  (52 < Datatypes.length compressed_end_file)%nat /\
+       decode_file db0 dp_liar (firstn 52 compressed_end_file) = Ok [].
+Proof. exact compressed_end_prefix_accepted. Qed.
+
+Theorem C13_bin_sample_truncation_by_theorem :
+  forall (p : dec_params) (k : nat),
+       (k < Datatypes.length sample_file)%nat ->
+       exists e : N, decode_file db0 p (firstn k sample_file) = Err e.
+Proof. exact sample_truncation_by_theorem. Qed.
+
